@@ -9,6 +9,7 @@ import (
 	"verifharness/gl/c14"
 	"verifharness/gl/c20"
 	"verifharness/lib/c12"
+	"verifharness/lib/c13"
 	"verifharness/lib/c16"
 	"verifharness/lib/c18"
 	"verifharness/sl/c05"
@@ -19,6 +20,7 @@ var cmds = map[string]func([]string) int{
 	"C05": c05.Main,
 	"C09": c09.Main,
 	"C12": c12.Main,
+	"C13": c13.Main,
 	"C14": c14.Main,
 	"C16": c16.Main,
 	"C18": c18.Main,
